@@ -144,6 +144,18 @@ void evalCase(Ctx &c, Rng &g) {
       xs.push_back({std::nextafter(bk, (T)-INFINITY), "just-inside-right"});
     }
   }
+  // the immediate neighbours of every grid point: an abscissa just right of
+  // an interior grid point belongs to the right-hand interval only
+  for (size_t i = 0; i < n && n <= 16; i++) {
+    if constexpr (ST<T>::exact) {
+      const R tiny = R(1) / R(vq::Z(1) << 100);
+      xs.push_back({mk<T>(pts[i] - tiny), "grid-point-neighbour"});
+      xs.push_back({mk<T>(pts[i] + tiny), "grid-point-neighbour"});
+    } else {
+      xs.push_back({std::nextafter(grid[i], (T)-INFINITY), "grid-point-neighbour"});
+      xs.push_back({std::nextafter(grid[i], (T)INFINITY), "grid-point-neighbour"});
+    }
+  }
   xs.push_back({mk<T>(pts.front() - 1000), "far-outside"});
   xs.push_back({mk<T>(pts.back() + 1000), "far-outside"});
   xs.push_back({mk<T>(R(0)), "zero"});
